@@ -358,12 +358,12 @@ func (g *VCGen) allocFact(term string, t types.Type, st *State) string {
 	switch u := t.Underlying().(type) {
 	case *types.Pointer, *types.Map, *types.Chan:
 		if g.so.sortOf(t) == "Int" {
-			return fmt.Sprintf("(< %s %s)", term, st.nextRef)
+			return fmt.Sprintf("(alive %s %s)", term, st.nextRef)
 		}
 	case *types.Slice:
 		return fmt.Sprintf("(< (s.base %s) %s)", term, st.nextRef)
 	case *types.Interface:
-		return fmt.Sprintf("(< (if.ref %s) %s)", term, st.nextRef)
+		return fmt.Sprintf("(alive (if.ref %s) %s)", term, st.nextRef)
 	case *types.Struct:
 		sn := g.so.sortOf(t)
 		if _, ok := g.so.structs[sn]; !ok {
